@@ -132,6 +132,24 @@ def m_negative_count(case: dict, xd: Any, what: str) -> bool:
     return False
 
 
+def m_label_collision(case: dict, xd: Any, what: str) -> bool:
+    """D27 as C10 sees it: two declared keys of a record-shaped validator have the same str() form, so `required`
+    lists one label twice (and `properties` keeps one of the two schemas)"""
+    if "valid Draft 2020-12 schema" not in what or "non-unique" not in what:
+        return False
+    from . import wire as _w
+    for d in walk(vdesc(case)):
+        if d.get("k") == "record":
+            try:
+                ctx = _w.Ctx()
+                labels = [str(_w.mk_value(ctx, k)) for k in d.get("keys", [])]
+            except Exception:  # noqa
+                continue
+            if len(set(labels)) != len(labels):
+                return True
+    return False
+
+
 def explained_by(tag: str) -> Callable[[dict, Any, str], bool]:
     """C11: the stream has established that the verdicts agree once the schema is read with the repair(s)
     named in the tag (D13: NotBlank pattern = "has a non-whitespace character"; D14: oneOf as anyOf; D15: user
@@ -148,8 +166,10 @@ MATCHERS: Dict[str, Callable[[dict, dict, str], bool]] = {
     "explained_by_D14": explained_by("D14"),
     "explained_by_D15": explained_by("D15"),
     "explained_by_D25": explained_by("D25"),
+    "explained_by_D27": explained_by("D27"),
     "float_nan_inf_in_schema": m_float_nan_inf,
     "negative_count_in_schema": m_negative_count,
+    "label_collision_in_schema": m_label_collision,
     "container_pred_on_payload": m_container_pred_on_payload,
     "special_decimal": m_special_decimal,
     "naive_aware": m_naive_aware,
